@@ -147,7 +147,7 @@ from typing import Any, TypeAlias
 from ...ast.fpyast import *
 from ...ast.visitor import Visitor
 from ...function import Function
-from ...number import INTEGER, REAL, Context, Float, RealFloat
+from ...number import INTEGER, REAL, Context, Float, OverflowMode, RealFloat, RoundingMode
 from ...number.format import REAL_FORMAT, Format
 from ...types import (
     BoolType,
@@ -225,6 +225,16 @@ def _unconstrained(
         _INF, exp, pos_bound, neg_bound=neg_bound,
         has_pos_inf=True, has_neg_inf=True, has_nan=True, has_neg_zero=True,
     )
+
+
+def _snap(bound: RealFloat | float, exp: int | float, rm: RoundingMode) -> RealFloat | float:
+    """*bound* moved to a neighbouring multiple of ``2 ** exp``: away from zero
+    (``RAZ``) for the largest magnitude a value within *bound* can round to on
+    that grid, toward zero (``RTZ``) for the largest grid point within it."""
+    if isinstance(exp, float) or not isinstance(bound, RealFloat):
+        return bound
+    snapped = bound.round(min_n=exp - 1, rm=rm)
+    return RealFloat(s=snapped.s, exp=snapped.exp, c=snapped.c)
 
 
 def _holds_only_zero(af: AbstractFormat) -> bool:
@@ -1880,11 +1890,24 @@ class _FormatInferInstance(Visitor):
         over_neg = exact.neg_bound < scope_af.neg_bound
         if over_pos or over_neg:
             # an overflowing value may land on C's largest value, which has
-            # C's precision rather than F's -- or, under a wrapping overflow,
-            # anywhere in C's range, whatever its own sign
+            # C's precision and quantum rather than F's -- or, under a wrapping
+            # overflow, anywhere in C's range, whatever its own sign
             prec = scope_af.prec
             pos_bound = scope_af.pos_bound
             neg_bound = scope_af.neg_bound
+            if getattr(resolved, 'overflow', None) is OverflowMode.ASSERT:
+                # an overflow raises: what is left lies on F's grid within C
+                pos_bound = _snap(pos_bound, exp, RoundingMode.RTZ)
+                neg_bound = _snap(neg_bound, exp, RoundingMode.RTZ)
+            else:
+                exp = scope_af.exp
+        elif scope_af.exp > exact.exp:
+            # the gate above speaks of precision only: where C's quantum is
+            # the coarser one, a bound of F between two multiples of it rounds
+            # up to the next multiple (``7 * 2**-7`` is ``2**-4`` under a
+            # quantum of ``2**-4``), which is the image's bound
+            pos_bound = _snap(pos_bound, exp, RoundingMode.RAZ)
+            neg_bound = _snap(neg_bound, exp, RoundingMode.RAZ)
         lost_inf = (
             (exact.has_pos_inf and not scope_af.has_pos_inf)
             or (exact.has_neg_inf and not scope_af.has_neg_inf)
